@@ -453,7 +453,7 @@ func usedByExt(c *spec.Case, key string, id spec.TypeID) bool {
 func providerSig(c *spec.Case, p *spec.Prov, from string) (params, results string) {
 	var ps []string
 	for i, t := range p.Params {
-		ex := c.Expr(t, from)
+		ex := c.ExprParam(t, from)
 		if p.Variadic && i == len(p.Params)-1 {
 			ex = "..." + c.Expr(c.T(t).Elem, from)
 		}
